@@ -180,3 +180,18 @@ def reachable(graph, roots):
             if y not in seen:
                 st.append(y)
     return seen
+
+
+def api_reachable(crate):
+    """Functions reachable from the library's public surface: XmlReader::read_xml, the utils helper, Files/FilesToRead
+    constructors and every `WriteXml::write_xml` / Display impl."""
+    g = call_graph(crate)
+    roots = []
+    for b in crate.bodies:
+        p = b["path"]
+        if b.get("closure"):
+            continue
+        if p in ("reader::XmlReader::read_xml", "utils::read_input_file_and_xsd_files_at_path", "reader::Files::new",
+                 "reader::Files::add", "reader::FilesToRead::new") or "reader::WriteXml<W>" in p or " as std::fmt::Display>" in p:
+            roots.append(p)
+    return reachable(g, roots)
